@@ -115,3 +115,24 @@ Example materialize_example :
   mat_dims_fixed [DInt 2; DSym "N"; DInt 3] = Some [2; -1; 3]
   /\ reshape_out true [6; 7] [2; -1; 3] = Some [2; 7; 3].
 Proof. split; reflexivity. Qed.
+
+(* ---- Flatten2Reshape (_basic_rules.py): refutation witness only (no soundness theorem) ------------
+   Flatten(x, axis) has shape [prod(front); prod(back)]; the rule emits Reshape(x, [0; -1]) (allowzero=0)
+   for x:[N, M], axis=1.  With an empty batch the -1 cannot be inferred. *)
+Definition flatten_out (cx : list Z) (axis : nat) : list Z := [zprod (firstn axis cx); zprod (skipn axis cx)].
+Lemma flatten_to_reshape_refuted : exists cx,
+  Forall (fun n => 0 <= n) cx /\ reshape_out false cx [0; -1] <> Some (flatten_out cx 1).
+Proof. exists [0; 4]. split; [repeat constructor; lia|]. vm_compute. discriminate. Qed.
+
+(* ---- collapse_slice2 (_collapse_slices.py): the rule fires when data and Slice output have the same
+   shape under _ir_utils.same_shape (sound: iu_same_shape_sound) and all steps are 1.  Along one axis a
+   step-1 Slice is a window `firstn n (skipn k l)`; a window as long as the axis is the whole axis. *)
+Lemma window_full : forall {A} (l : list A) k n,
+  List.length (firstn n (skipn k l)) = List.length l -> firstn n (skipn k l) = l.
+Proof.
+  intros A l k n H. rewrite firstn_length, skipn_length in H.
+  destruct l as [|a l]; [destruct k; destruct n; reflexivity|].
+  assert (P : (0 < List.length (a :: l))%nat) by (simpl; lia).
+  assert (k = 0%nat) by lia. subst. rewrite Nat.sub_0_r in H.
+  change (skipn 0 (a :: l)) with (a :: l). apply firstn_all2. lia.
+Qed.
